@@ -5,7 +5,7 @@
      oo_name_total / _is_synth    the X-prefix loop terminates within the fuel of the model and
                                   returns protoc's name for the same set of taken names
      synthetic_oneof_names_fresh / _eq_protoc   the loop over the fields *)
-From Coq Require Import List NArith ZArith Bool Lia Arith.
+From Coq Require Import List NArith ZArith Bool Lia Arith FinFun.
 From PV Require Import Model.MiniProto Model.Lower Model.ProtocDescriptor.
 Import ListNotations.
 Open Scope N_scope.
@@ -37,7 +37,7 @@ Proof.
       * cbn [conv_words conv_word app]. rewrite IH1. cbn [negb]. rewrite orb_true_r. reflexivity.
       * specialize (IH2 pascal (pascal || negb fw)). pose proof (split_us_nonempty r) as Hne.
         destruct (split_us r) as [|w ws]; [congruence|].
-        cbn [conv_words conv_word]. rewrite <- app_assoc. cbn [app]. rewrite IH2.
+        cbn [conv_words conv_word app]. rewrite IH2.
         rewrite andb_true_r, orb_false_r. unfold set_case.
         destruct (pascal || negb fw); reflexivity.
     + intros pascal up. cbn [split_us camel_from]. unfold us in *. destruct (c =? 95) eqn:E.
@@ -105,7 +105,7 @@ Qed.
 
 Lemma x_times_seq_nodup c n : NoDup (map (fun k => x_times k c) (seq 0 n)).
 Proof.
-  apply FinFun.Injective_map_NoDup; [|apply seq_NoDup].
+  apply Injective_map_NoDup; [|apply seq_NoDup].
   intros a b H. apply (f_equal (@length N)) in H. rewrite !x_times_length in H. lia.
 Qed.
 
@@ -145,7 +145,7 @@ Qed.
 (* the loop never runs out of fuel *)
 Lemma p3opt_loop_total : forall fs done all oneofs, p3opt_loop fs done all oneofs <> None.
 Proof.
-  induction fs as [|fd r IH]; intros done all oneofs; cbn; [discriminate|].
+  induction fs as [|fd r IH]; intros done all oneofs; cbn [p3opt_loop]; [discriminate|].
   destruct (df_p3opt fd); [|apply IH].
   destruct (oo_name all (df_name fd)) eqn:E; [apply IH|]. now apply oo_name_total_lemma in E.
 Qed.
@@ -156,7 +156,7 @@ Lemma p3opt_loop_fresh : forall fs done all oneofs fs' oneofs',
   p3opt_loop fs done all oneofs = Some (fs', oneofs') ->
   exists new, oneofs' = oneofs ++ new /\ NoDup new /\ forall n, In n new -> ~ In n all.
 Proof.
-  induction fs as [|fd r IH]; intros done all oneofs fs' oneofs' H; cbn in H.
+  induction fs as [|fd r IH]; intros done all oneofs fs' oneofs' H; cbn [p3opt_loop] in H.
   - injection H as <- <-. exists []. rewrite app_nil_r. repeat split; [constructor|intros n []].
   - destruct (df_p3opt fd).
     + destruct (oo_name all (df_name fd)) as [oo|] eqn:E; [|discriminate].
@@ -188,7 +188,7 @@ Lemma p3opt_loop_eq : forall fs done allG allP oneofs,
                   In (x_times k (synth_candidate (df_name f))) (oo :: allP)) ->
   p3opt_loop fs done allG oneofs = p3opt_loop fs done allP oneofs.
 Proof.
-  induction fs as [|fd r IH]; intros done allG allP oneofs Hsub Hcand Hcand'; cbn; [reflexivity|].
+  induction fs as [|fd r IH]; intros done allG allP oneofs Hsub Hcand Hcand'; cbn [p3opt_loop]; [reflexivity|].
   destruct (df_p3opt fd) eqn:Ep.
   - destruct (oo_name allG (df_name fd)) as [g|] eqn:Eg; [|now apply oo_name_total_lemma in Eg].
     destruct (oo_name allP (df_name fd)) as [p|] eqn:Epn; [|now apply oo_name_total_lemma in Epn].
